@@ -1,3 +1,4 @@
 SPECIFICATION CSpec
 INVARIANT Conforms
 CHECK_DEADLOCK FALSE
+VIEW View
